@@ -20,7 +20,10 @@
    schedule under the fixed automaton.  The plain read is not an atomic site: it is an unobserved step of the model
    (as the other plain reads of dq_items_tail), tied to the source by reading; the conformance check
    (lib/props/c05_sync.py) replays the recorded overtake schedule of the real library through the model.
-   Scope: as Model/SyncWait.v (one serial lane on a root queue, not suspended / retargeted / thread bound). *)
+   Scope: as Model/SyncWait.v (one serial lane on a root queue, not suspended / retargeted / thread bound).
+   FLAT CLIENTS: a submission call (DVU_CALL) is accepted only at Idle, never from inside a work item of the lane: an item
+   that submits to its own queue (drainer = pusher) is outside the model and outside every theorem of this file; "any mix
+   of submission kinds, any number of threads" is about threads that are clients between callouts or workers. *)
 From Coq Require Import ZArith Bool List.
 From Verif Require Import Word Conc Gen_consts Gen_dqstate Gen_lanesites SyncWait SyncWait_word SyncWait_inv SyncWait_proofs
   SyncWait_example SyncOrder SyncOrder_proofs SyncOrder_example.
